@@ -253,8 +253,23 @@ def _sendfile(out_fd, in_fd, offset, count, *a, **kw):
             path = os.readlink("/proc/self/fd/%d" % out_fd)
         except OSError:
             path = "<fd:%d>" % out_fd
-        _op("dwrite", path, extra=-1)
+        fault = _op("dwrite", path, extra=-1)
         rec = st["log"][-1]
+        rec["via"] = "sendfile"
+        try:
+            rec["src"] = os.readlink("/proc/self/fd/%d" % in_fd)     # whose bytes these are (a copy of another file)
+        except OSError:
+            rec["src"] = ""
+        if fault in ("torn", "torncrash"):
+            # the kernel takes part of the data, then the disk is full: the caller sees the error (sendfile has no
+            # silent short count that shutil would not notice - it loops until 0)
+            k = max(0, min(st["plan"].get("k", 1), count - 1 if count else 0))
+            sent = _real_sendfile(out_fd, in_fd, offset, k, *a, **kw) if k else 0
+            rec["extra"] = sent
+            if fault == "torncrash":
+                _flush_log()
+                os._exit(CRASH_EXIT)
+            raise OSError(errno.ENOSPC, "injected ENOSPC after a partial transfer", path)
         sent = _real_sendfile(out_fd, in_fd, offset, count, *a, **kw)
         rec["extra"] = sent
         return sent
